@@ -19,6 +19,10 @@ package main
 //      "fresh" and "already initialised".  Everything the command displays
 //      (stdout, stderr, returned error text, JSON "repository" field) is checked.
 //  (3) the other registered schemes with their documented forms.
+//  (4) CLI level, locations with a leading blank/tab or a trailing CR/LF/blank
+//      (as an env file or script may supply them): nothing displayed may
+//      contain the password if the command accepts the location (= talks to the
+//      server); error messages about rejected strings are not judged.
 //
 // Oracle.  The reference password of a location is computed by an independent
 // RFC 3986 authority split written here (not net/url): authority = text
@@ -192,6 +196,7 @@ type verifC50Server struct {
 	mu    sync.Mutex
 	files map[string][]byte
 	mode  string // "ok" | "forbidden"
+	reqs  int    // requests served so far
 }
 
 var verifC50Types = map[string]bool{"data": true, "keys": true, "locks": true, "snapshots": true, "index": true}
@@ -203,9 +208,12 @@ func (s *verifC50Server) reset(mode string) {
 	s.mu.Unlock()
 }
 
+func (s *verifC50Server) requests() int { s.mu.Lock(); defer s.mu.Unlock(); return s.reqs }
+
 func (s *verifC50Server) ServeHTTP(w http.ResponseWriter, req *http.Request) {
 	s.mu.Lock()
 	defer s.mu.Unlock()
+	s.reqs++
 	if s.mode == "forbidden" {
 		w.WriteHeader(http.StatusForbidden)
 		return
@@ -279,6 +287,7 @@ type verifC50Shown struct {
 	Scenario string `json:"scenario"`
 	Stream   string `json:"stream"`
 	Text     string `json:"text"`
+	Accepted bool   `json:"accepted"` // the command got as far as talking to the server: it accepted the location
 }
 
 // verifC50RunCLI runs all scenarios for one location and returns everything displayed.
@@ -289,13 +298,15 @@ func verifC50RunCLI(t *testing.T, base global.Options, srv *verifC50Server, loc 
 		gopts.Repo = loc
 		gopts.JSON = jsonOut
 		gopts.Quiet = false
+		r0 := srv.requests()
 		stdout, stderr, err := withCaptureStdoutStderr(t, gopts, f)
-		out = append(out, verifC50Shown{name, "stdout", stdout.String()}, verifC50Shown{name, "stderr", stderr.String()})
+		acc := srv.requests() > r0
+		out = append(out, verifC50Shown{name, "stdout", stdout.String(), acc}, verifC50Shown{name, "stderr", stderr.String(), acc})
 		e := ""
 		if err != nil {
 			e = err.Error()
 		}
-		out = append(out, verifC50Shown{name, "error", e})
+		out = append(out, verifC50Shown{name, "error", e, acc})
 	}
 	snap := func(ctx context.Context, gopts global.Options) error {
 		return runSnapshots(ctx, SnapshotOptions{}, gopts, nil, gopts.Term)
@@ -523,6 +534,40 @@ func TestVerif_C50(t *testing.T) {
 						}
 						if pw == "p@" && us == "u" && si == 0 {
 							r.Sample(map[string]any{"location": loc, "displayed": got})
+						}
+					}
+				}
+			}
+		}
+	}
+
+	// ---- (4) locations with surrounding white space at command level ----
+	// A location copied from an env file or a script may carry a leading blank or a trailing CR/LF.  Whether
+	// If a command accepts such a location (it gets as far as talking to the server), nothing it displays may
+	// contain the password (here the distinctive twin password, so a plain substring test decides).
+	if r.Case("decorated-locations") {
+		for _, sc := range schemes {
+			for _, us := range []string{"u", ""} {
+				core := "rest:" + sc + "://" + us + ":" + verifC50Twin + "@" + hostOf[sc]
+				for di, loc := range []string{
+					" " + core + "/", "\t" + core + "/", core + "/\r", core + "/\n", core + "/\r\n", core + "/ ", core + " ", " " + core + "/d/ ",
+				} {
+					shown := verifC50RunCLI(t, base, srv, loc)
+					r.Eval(1)
+					r.Transition(int64(len(shown)))
+					r.NontrivialByConstruction(1)
+					for _, sh := range shown {
+						if !sh.Accepted {
+							// the command rejected the location ("for every repository location that restic
+							// accepts"): what an error message about a rejected string shows is not judged
+							r.Outcome("decorated-rejected|" + sh.Scenario)
+							continue
+						}
+						r.Outcome("decorated-accepted|" + sh.Scenario)
+						if strings.Contains(sh.Text, verifC50Twin) || strings.Contains(verifC50Decode(sh.Text), verifC50Twin) {
+							r.Violationf("decorated-locations", fmt.Sprintf("C50|cli-decorated|%s|%s|decoration=%d", sh.Scenario, sh.Stream, di),
+								map[string]any{"location": loc, "command": sh.Scenario, "where": sh.Stream, "text": sh.Text},
+								"location %q (white space around it): %s %s shows the password: %q", loc, sh.Scenario, sh.Stream, sh.Text)
 						}
 					}
 				}
